@@ -23,6 +23,17 @@ def forms_for(value):
     out = ["float", "np.float64"]
     if v == int(v) and abs(v) < 2 ** 31:
         out += ["int", "np.int32", "np.int64"]
+        if v >= 0:
+            out += ["np.uint32", "np.uint64"]
+        if -2 ** 15 <= v < 2 ** 15:
+            out.append("np.int16")
+        if 0 <= v < 2 ** 16:
+            out.append("np.uint16")
+        if -128 <= v < 128:
+            out.append("np.int8")
+        if 0 <= v < 256:
+            out.append("np.uint8")
+    out.append("np.longdouble")      # extended precision represents every double exactly
     if float(np.float32(v)) == v:
         out.append("np.float32")
     if abs(v) < 6e4 and float(np.float16(v)) == v:
@@ -82,7 +93,7 @@ class C18(Prop):
     level = "exploration"
     rule = ("one case = one seeded simulated run in canonical forms (float lambda, float beta, float floor) re-executed with "
             "(a) lambda as the constant NWxNW matrix, (b) beta as the constant per-pair vector, (c) each scalar "
-            "hyper-parameter as int / float / np.float32 / np.float64 / np.int32 / np.int64 wherever that type represents "
+            "hyper-parameter as int / float / NumPy float16/32/64/longdouble / NumPy (u)int8..64 wherever that type represents "
             "the value exactly, and (d) the optimiser entry point called directly with each form for the (S, lambda) pairs "
             "recorded in the run; whole results compared bitwise. A scalar-vs-matrix difference is attributed to the known "
             "finding only if re-running the scalar form with the lambda sum computed position by position (counterfactual "
@@ -92,8 +103,11 @@ class C18(Prop):
 
     def plan(self, tier):
         if tier == "quick":
-            return {"nojit": dict(count=176, workers=16), "_soft_deadline": 90}
-        return {"nojit": dict(count=8000, workers=16), "_soft_deadline": 1500}
+            return {"nojit": dict(count=160, workers=13), "jit": dict(count=24, workers=3, numba_threads=4),
+                    "_soft_deadline": 90}
+        # the compiled kernels type their arguments: equivalent forms must agree there too
+        return {"nojit": dict(count=8000, workers=13), "jit": dict(count=1200, workers=3, numba_threads=4),
+                "_soft_deadline": 1500}
 
     def gen(self, seed):
         r = core.rng(seed, "C18", "gen")
@@ -118,7 +132,7 @@ class C18(Prop):
         for name in ("sparsity_weight", "label_switching_cost", "min_meaningful_covariance"):
             fs = [f for f in forms_for(a[name]["value"]) if f != "float"]
             narrow = [f for f in fs if f in ("np.float32", "np.float16")]
-            picks = r.sample(fs, min(2, len(fs)))
+            picks = r.sample(fs, min(3, len(fs)))
             if narrow and not set(picks) & set(narrow):
                 picks[-1] = r.choice(narrow)
             for f in picks:
